@@ -517,8 +517,13 @@ def _r13g(rep):
     ra = [r.value for r in ast.walk(fa) if isinstance(r, ast.Return)]
     rd = [r.value for r in ast.walk(fd) if isinstance(r, ast.Return)]
     axis_py = axis_pyd = None
-    if ra and isinstance(ra[0], ast.Call) and core.src(ra[0].func) == "np.dot" and len(ra[0].args) == 2:
-        a0, a1 = ra[0].args
+    pair = None
+    if ra and isinstance(ra[0], ast.Call) and core.src(ra[0].func) in ("np.dot", "np.matmul") and len(ra[0].args) == 2:
+        pair = tuple(ra[0].args)
+    elif ra and isinstance(ra[0], ast.BinOp) and isinstance(ra[0].op, ast.MatMult):
+        pair = (ra[0].left, ra[0].right)
+    if pair:
+        a0, a1 = pair
         if core.src(a0) == "q" and isinstance(a1, ast.Subscript) and not isinstance(a1.slice, ast.Tuple):
             axis_py = 1  # q . Z[atom]: first axis of the 3x3 tensor = axis 1 of Z
         elif core.src(a1) == "q" and isinstance(a0, ast.Subscript) and not isinstance(a0.slice, ast.Tuple):
